@@ -336,6 +336,9 @@ func c18(r *mon.Run) {
 	oddUpper := []string{"\"\"", "In.\"\"", "Ins[*].\"\"", "PIns[].\"\"", "[\"\", ID]", "{a: \"\"}", "Ins[?\"\"]", "PIn.\"\"", "Uni.\"\"", "\"\u00c9lan\"", "Uni.\"\u00c9lan\"", "PUni.\"\u00d1u\"",
 		"Uni.\"\u03a9mega\"", "[Uni.\"\u00c9lan\", Uni.Z]", "Uni.* | length(@)", "\" \"", "In.\"Name \"", "\"I\"", "In.\"N\"", "\"1\"", "\"_\"", "PUni.Z", "Ins[*].Uni", "[Uni, PUni][*].\"\u00d1u\""}
 	oddLower := []string{"uni.\"\u00e9lan\"", "pUni.\"\u00f1u\"", "uni.\"\u03c9mega\"", "\"iD\"", "\"i\"", "in.\"n\"", "[uni.\"\u00e9lan\", uni.z]", "uni.* | length(@)", "pUni.z", "[uni, pUni][*].\"\u00f1u\"", "in.\"name \"", "\"\u00e9lan\""}
+	// names that match a field only if letter case is ignored beyond the first letter: no member of the JSON form, null
+	oddUpper = append(oddUpper, "Id", "NAME", "In.NAME", "In.NaMe", "Ins[*].NAME", "COUNT", "INS", "PIN.Name", "In.Id", "[Id, NAME, ID]", "Ins[?NAME].Name", "UNI", "Uni.ZZ", "On", "ON")
+	oddLower = append(oddLower, "id", "nAME", "in.nAME", "ins[*].nAmE", "cOUNT", "iNS", "pIN.name", "in.id", "[id, nAME, iD]", "ins[?nAME].name", "uNI", "oN")
 	odd := append(append([]string{}, oddUpper...), oddLower...)
 	oddw := mon.Workload{Name: "odd-identifiers-on-structs", N: len(odd) * 8,
 		Do: func(i int, t *mon.Tally) {
